@@ -750,14 +750,17 @@ impl OriginModel {
 pub fn check_advertised_after_restart(state: &SyncStateV1, origin: ActorId, m: &OriginModel, own: bool) -> Result<(), (String, String)> {
     let head = state.heads.get(&origin).map(|v| v.0).unwrap_or(0);
     if head < m.max && !own {
-        for v in head + 1..=m.max {
-            if !m.held.contains(&v) || m.partial.contains_key(&v) {
-                return Err(("head-regression-only-over-dataless-versions".into(), format!("head went back from {} to {head} although v{v} is not a version held without stored data", m.max)));
-            }
-        }
+        // Everything above the rebuilt head is "beyond its head" again and will be asked for as a whole: a version
+        // that was never received, one of which only chunks are buffered (the chunks stay buffered, the version is
+        // requested again) and one that was held without leaving data.  A version whose data is stored cannot be
+        // above the rebuilt head (the head is rebuilt from the stored data); that the data itself is still there is
+        // what the visible-state comparison after the restart checks.
         let mut cut = m.clone();
         cut.max = head;
         cut.held.retain(|v| *v <= head);
+        cut.partial.retain(|v, _| *v <= head);
+        cut.last_seqs.retain(|v, _| *v <= head);
+        cut.undetermined.retain(|v| *v <= head);
         return check_advertised(state, origin, &cut, own);
     }
     check_advertised(state, origin, m, own)
